@@ -304,6 +304,9 @@ func (s *EMTState) edgeMultiComputeRecordSpecs(raw []RawType, frameIndexOfraw0 F
 	recordSpecs := make([]RecordSpec, 0)
 	if iFirst < maxLookback { // state has been reset
 		iFirst = maxLookback
+		if s.enableZeroThreshold {
+			iFirst++ // the kink model may move a trigger 1 sample earlier; its record must still start inside raw
+		}
 		if s.iFirstCheckSentinel {
 			log.Println("reseting edge multi state unexpectedly")
 		}
